@@ -269,6 +269,24 @@ func upcOp(a []string) string {
 			return "err"
 		}
 		return fmt.Sprintf("ok %d %d %s", u.Octet[0], u.Octet[1], showMsg(u))
+	case "dec2":
+		// decode A, then B, into the SAME UePolDeliverySer: the result must be that of decoding B alone
+		if len(a) != 3 {
+			return "bad-op"
+		}
+		b1, ok1 := unhex(a[1])
+		b2, ok2 := unhex(a[2])
+		if !ok1 || !ok2 || len(b1) < 2 || len(b2) < 2 || b1[1] != b2[1] {
+			// only pairs of the same message type: a different type leaves the earlier sub-message attached on the unchanged
+			// tree as well (C18 quantifies over inputs, not over recycled objects of another type)
+			return "bad-op"
+		}
+		u := upc.NewUePolDeliverySer()
+		_ = u.UePolDeliverySerDecode(b1)
+		if err := u.UePolDeliverySerDecode(b2); err != nil {
+			return "err"
+		}
+		return fmt.Sprintf("ok %d %d %s", u.Octet[0], u.Octet[1], showMsg(u))
 	case "enc":
 		if len(a) != 3 {
 			return "bad-op"
@@ -422,6 +440,47 @@ func oracleC18(op string, a []string) string {
 		r := withTimeout(func() string { return upcOp(a) })
 		if r == "panic" || r == "hang" || r == "bad-op" {
 			return "FAIL " + r
+		}
+		// the decoded structure is a value of its own: overwriting the input afterwards must not change it
+		if b, ok := unhex(a[1]); ok && strings.HasPrefix(r, "ok") && len(b) > 0 {
+			in := append([]byte{}, b...)
+			var show func() string
+			switch a[0] {
+			case "dec":
+				u := upc.NewUePolDeliverySer()
+				if u.UePolDeliverySerDecode(in) != nil {
+					return "pass"
+				}
+				show = func() string { return showMsg(u) }
+			case "unl":
+				var c upc.UEPolicySectionManagementListContent
+				if c.UnmarshalBinary(in) != nil {
+					return "pass"
+				}
+				show = func() string { return showSubLists(c) }
+			case "unr":
+				var c upc.UEPolicySectionManagementResultContent
+				if c.UnmarshalBinary(in) != nil {
+					return "pass"
+				}
+				show = func() string { return showSubResults(c) }
+			}
+			before := show()
+			for i := range in {
+				in[i] ^= 0xff
+			}
+			if show() != before {
+				return "FAIL decoded structure aliases the input (changed after the input was overwritten)"
+			}
+		}
+		return "pass"
+	case "dec2":
+		r := withTimeout(func() string { return upcOp(a) })
+		if r == "panic" || r == "hang" || r == "bad-op" {
+			return "FAIL " + r
+		}
+		if fresh := upcOp([]string{"dec", a[2]}); fresh != r {
+			return "FAIL decoding into a recycled UePolDeliverySer differs from a fresh decode: " + r + " (fresh: " + fresh + ")"
 		}
 		return "pass"
 	case "mal":
@@ -773,6 +832,22 @@ func genUePolicy(g *Gen, w *bufio.Writer) {
 		b := []byte{7, 1, 0, 0, 2, 0xaa, 0xbb}
 		b = append(b, g.Bytes(extra)...)
 		fmt.Fprintf(w, "upc dec %s\n", hexs(b))
+	}
+	// a recycled UePolDeliverySer: every ordered pair of a small set of messages (command with / without the optional classmark,
+	// complete, reject, an unknown type, a truncated command) decoded one after the other into the same object
+	{
+		list := []byte{0, 3, 0x02, 0xf8, 0x39}
+		cmdNo := append([]byte{7, 1, 0, 0, byte(len(list))}, list...)
+		cmdCm := append(append([]byte{}, cmdNo...), 0x41, 0x01, 0x03, 0x00)
+		cmdCm2 := append(append([]byte{}, cmdNo...), 0x41, 0x01, 0x01, 0x00)
+		msgs := [][]byte{cmdNo, cmdCm, cmdCm2, {9, 2}, {8, 2}, {9, 4, 0, 8, 0, 6, 0x02, 0xf8, 0x39, 0, 1, 0x6f}, {3, 4, 0, 3, 0x02, 0xf8, 0x39}, {1, 0x77}, cmdCm[:len(cmdCm)-2], cmdNo[:5]}
+		for _, a := range msgs {
+			for _, b := range msgs {
+				if a[1] == b[1] {
+					fmt.Fprintf(w, "upc dec2 %s %s\n", hexs(a), hexs(b))
+				}
+			}
+		}
 	}
 	// PLMN digits: every MCC x a spread of MNCs (thorough: all), both setters, and values around the accepted range
 	for mcc := 100; mcc <= 999; mcc++ {
